@@ -121,8 +121,12 @@ func (s *JavaIdentifierListener) EnterMethodDeclaration(ctx *parser.MethodDeclar
 
 	typeType := ctx.TypeTypeOrVoid().GetText()
 
-	if reflect.TypeOf(ctx.GetParent().GetParent().GetChild(0)).String() == "*parser.ModifierContext" {
-		common_listener.BuildAnnotationForMethod(ctx.GetParent().GetParent().GetChild(0).(*parser.ModifierContext), &currentMethod)
+	// every annotation among the modifiers belongs to the method, wherever it stands
+	// (`public @Nullable T f()`, `@Override @Nullable T f()`)
+	if bodyCtx, ok := ctx.GetParent().GetParent().(*parser.ClassBodyDeclarationContext); ok {
+		for _, modifier := range bodyCtx.AllModifier() {
+			common_listener.BuildAnnotationForMethod(modifier.(*parser.ModifierContext), &currentMethod)
+		}
 	}
 
 	position := core_domain.CodePosition{
@@ -196,8 +200,10 @@ func (s *JavaIdentifierListener) EnterInterfaceMethodDeclaration(ctx *parser.Int
 	//XXX: find the start position of {, not public
 	typeType := ctx.InterfaceCommonBodyDeclaration().(*parser.InterfaceCommonBodyDeclarationContext).TypeTypeOrVoid().GetText()
 
-	if reflect.TypeOf(ctx.GetParent().GetParent().GetChild(0)).String() == "*parser.ModifierContext" {
-		common_listener.BuildAnnotationForMethod(ctx.GetParent().GetParent().GetChild(0).(*parser.ModifierContext), &currentMethod)
+	if bodyCtx, ok := ctx.GetParent().GetParent().(*parser.InterfaceBodyDeclarationContext); ok {
+		for _, modifier := range bodyCtx.AllModifier() {
+			common_listener.BuildAnnotationForMethod(modifier.(*parser.ModifierContext), &currentMethod)
+		}
 	}
 
 	position := core_domain.CodePosition{
